@@ -805,7 +805,7 @@ def _make__eq__(fields: list[str]) -> str:
     def __eq__(self, other):
         if self.__class__ is other.__class__:
             return ({self_vals}) == ({other_vals})
-        return False
+        return NotImplemented
     """
 
     return dedent(code)
@@ -853,8 +853,9 @@ def _patch_attributes(func: FunctionType, fields: list[str], start: int = 0) -> 
         fields: List of field names to add.
         start: The starting index for patching. Defaults to 0.
     """
+    names = func.__code__.co_names
     return type(func)(
-        func.__code__.replace(co_names=(*func.__code__.co_names[:start], *fields)),
+        func.__code__.replace(co_names=(*names[:start], *fields, *names[start + len(fields) :])),
         func.__globals__,
     )
 
